@@ -85,7 +85,12 @@ func (values SortValues) Serialize(buf *bytes.Buffer) {
 		case IntegerType, BooleanType:
 			serializeInteger(buf, value.Int64ToStr(val.Integer))
 		case FloatType:
-			serializeFloat(buf, value.Float64ToStr(val.Float, false))
+			// like SerializeKey: a float without a fractional part shares the key of the integer it is equal to
+			if i, ok := integralFloatToInt64(val.Float); ok {
+				serializeInteger(buf, value.Int64ToStr(i))
+			} else {
+				serializeFloat(buf, value.Float64ToStr(val.Float, false))
+			}
 		case DatetimeType:
 			serializeDatetime(buf, val.Datetime)
 		case StringType:
